@@ -413,6 +413,74 @@ def tags_engine(pid, tier, seed, exe, workdir, V):
     return res
 
 
+def descr_engine(pid, tier, seed, exe, workdir, V):
+    """C16/C17: field_desc.go + the constraint walk of constraints.go against Model/Descr.v on struct types
+    built at run time (reflect.StructOf): descriptors in slice order, which leaf the walk along each
+    constrained path changes on a random value (nil pointers on the way), CompatibleWith /
+    FieldsCompatibleWith verdicts on (type, variant) pairs; model-free oracles on the same data."""
+    import concurrent.futures
+    n = 40 if tier == 'quick' else 600
+    res = {'oracle_failures': [], 'evaluations': 0, 'nontrivial': 0, 'samples': [], 'mismatches': []}
+    drv = os.path.join(V, 'ocaml', 'driver')
+
+    def one(i):
+        out = os.path.join(workdir, 'descr_%d.txt' % i)
+        _sh([exe, '-descr', '-seed', str(seed), '-first', str(i * n), '-n', str(n), '-out', out], timeout=3000)
+        if not os.path.exists(out):
+            return '', ''
+        r = subprocess.run([drv, '-descr', out], stdout=subprocess.PIPE, stderr=subprocess.STDOUT, text=True, timeout=3000)
+        return open(out).read(), r.stdout
+    kinds = {}
+    done = 0
+    with concurrent.futures.ThreadPoolExecutor(max_workers=16) as ex:
+        for txt, cmpout in ex.map(one, range(16)):
+            if 'descr done' in txt:
+                done += 1
+            for l in txt.splitlines():
+                if l.startswith('! '):
+                    tag = l[2:5]
+                    if tag == pid:
+                        res['oracle_failures'].append({'line': l[:1500], 'replay': [l[:3000]], 'hist': 'run-time struct types'})
+            for l in cmpout.splitlines():
+                if l.startswith('same '):
+                    res['evaluations'] += 1
+                    k = ' '.join(l.split()[:2])
+                    if k == 'same walk' and not l.endswith('-'):
+                        k = 'same walk (a string leaf reached)'
+                        res['nontrivial'] += 1
+                    elif k == 'same compat':
+                        k = l
+                        res['nontrivial'] += 1
+                    elif k == 'same descriptors' and not l.endswith(' 0'):
+                        res['nontrivial'] += 1
+                    kinds[k] = kinds.get(k, 0) + 1
+                elif l.startswith('DIFF'):
+                    res['mismatches'].append({'op': 'descr', 'impl': l[:800], 'model': '', 'replay': [l[:4000]]})
+                elif l.strip():
+                    res['mismatches'].append({'op': 'descr', 'impl': 'driver: ' + l[:300], 'model': '', 'replay': [l[:600]]})
+    if done != 16:
+        res['broken'] = 'descriptor engine did not finish (%d/16 shards)' % done
+    if res['mismatches']:
+        res['broken'] = 'field_desc.go / constraints.go and Model/Descr.v disagree: %s' % res['mismatches'][0]['impl'][:800]
+    res['distribution'] = kinds
+    res['summary'] = '%d comparisons on %d run-time struct types (descriptors, constraint walks, compatibility verdicts): %s' % (res['evaluations'], 16 * n, json.dumps(kinds, sort_keys=True))
+    return res
+
+
+def c16_engine(pid, tier, seed, exe, workdir, V):
+    a = tags_engine(pid, tier, seed, exe, workdir, V)
+    b = descr_engine(pid, tier, seed, exe, workdir, V)
+    for k in ('oracle_failures', 'samples'):
+        a[k] = a.get(k, []) + b.get(k, [])
+    a['mismatches'] = a.get('mismatches', []) + b.get('mismatches', [])
+    a['evaluations'] = a.get('evaluations', 0) + b.get('evaluations', 0)
+    a['nontrivial'] = a.get('nontrivial', 0) + b.get('nontrivial', 0)
+    if b.get('broken') and not a.get('broken'):
+        a['broken'] = b['broken']
+    a['summary'] = a.get('summary', '') + '; ' + b.get('summary', '')
+    return a
+
+
 def run_extra(pid, tier, seed, exe, workdir, V):
     mod = EXTRA.get(pid)
     if mod is None:
@@ -420,4 +488,4 @@ def run_extra(pid, tier, seed, exe, workdir, V):
     return mod(pid, tier, seed, exe, workdir, V)
 
 
-EXTRA = {'C16': tags_engine, 'C14': clone_engine, 'C19': fuzz_engine, 'C09': lock_engine, 'C08': race_engine, 'C12': pair_engine, 'C18': golden_engine}
+EXTRA = {'C16': c16_engine, 'C17': descr_engine, 'C14': clone_engine, 'C19': fuzz_engine, 'C09': lock_engine, 'C08': race_engine, 'C12': pair_engine, 'C18': golden_engine}
